@@ -68,6 +68,11 @@ def good_cases():
     d = R.parse(rtf(r"{\pard caf" + "é" + r"\par}").encode("latin-1"))
     expect(d.pages[0].blocks[0].text == "café", repr(d.pages[0].blocks[0].text))
     n += 2
+    # \'hh is decoded in the code page of the current font's charset
+    d = R.parse(rtf(r"{\fonttbl{\f0\froman\fcharset1 A;}{\f1\froman\fcharset161 G;}{\f2\ftech\fcharset2 S;}}"
+                    r"{\pard{\f0 \'e9}{\f1 \'e9}{\f2 \'e9x}\par}"))
+    expect(d.pages[0].blocks[0].text == "\u00e9\u03b9\uf0e9x", repr(d.pages[0].blocks[0].text))
+    n += 1
     # pages, page setup, header/footer destinations, fields, scripts, line
     d = R.parse(rtf(r"{\header{\pard\qr Page \chpgn  of {\field{\*\fldinst NUMPAGES }}\par}}"
                     r"{\footer{\pard F\par}}\paperw100\paperh200"
